@@ -498,3 +498,94 @@ pub fn check_e1(def: &E1Def, tier: &str, seed: u64) -> i32 {
     }
     0
 }
+
+/// Generic parent-side check for engines whose replay files are raw JSON values.
+#[allow(clippy::too_many_arguments)]
+pub fn check_simple(
+    id: &str,
+    tier: &str,
+    seed: u64,
+    total_quick: u32,
+    total_thorough: u32,
+    level: &str,
+    rule: &str,
+    assumptions: &[&str],
+    replay: fn(&Value, &BTreeSet<String>) -> Option<String>,
+    unit: &str,
+) -> i32 {
+    let t0 = Instant::now();
+    clear_old_replays(id);
+    let findings = load_findings();
+    let mut exclude = excludes_for(id, &findings);
+    if let Ok(x) = std::env::var("FJV_DEBUG_EXCLUDE") {
+        exclude.extend(x.split(',').filter(|s| !s.is_empty()).map(str::to_string));
+    }
+    if std::env::var("FJV_DEBUG_NO_EXCLUDE").is_ok() {
+        exclude.clear();
+    }
+    let mut violations = vec![];
+    let mut corpus_n = 0;
+    let load = |p: &Path| std::fs::read_to_string(p).map_err(|e| e.to_string()).and_then(|s| serde_json::from_str::<Value>(&s).map_err(|e| e.to_string()));
+    for p in corpus_files(id) {
+        if let Ok(v) = load(&p) {
+            corpus_n += 1;
+            if let Some(msg) = replay(&v, &exclude) {
+                println!("corpus case {} fails: {msg}", p.display());
+                violations.push(p.clone());
+            }
+        }
+    }
+    let mut known = 0;
+    for f in findings.iter().filter(|f| f.property == id && f.status == "known") {
+        if let Some(rp) = &f.replay {
+            if let Ok(v) = load(&Path::new(VERIF).join(rp)) {
+                if replay(&v, &BTreeSet::new()).is_some() {
+                    println!("KNOWN-FINDING: property={id} {} [{}]", f.what, f.id);
+                    known += 1;
+                }
+            }
+        }
+    }
+    let total = if tier == "thorough" { total_thorough } else { total_quick };
+    let m = match run_shards(id, tier, seed, 16, total.div_ceil(16), &exclude, Duration::from_secs(if tier == "thorough" { 4 * 3600 } else { 1200 })) {
+        Ok(m) => m,
+        Err(e) => {
+            eprintln!("engine failure: {e}");
+            return 2;
+        }
+    };
+    for f in &m.failures {
+        let p = write_replay_raw(id, &f.case);
+        println!("failure: {}", f.msg);
+        violations.push(p);
+    }
+    let wall = t0.elapsed().as_secs_f64();
+    write_evidence(
+        id,
+        tier,
+        seed,
+        level,
+        &m,
+        rule,
+        assumptions,
+        wall,
+        violations.len(),
+        json!({"corpus_cases_replayed": corpus_n, "known_findings_reproduced": known,
+               "excluded_known": m.stats.get("excluded_known").copied().unwrap_or(0),
+               "exclusions_active": exclude.iter().cloned().collect::<Vec<_>>()}),
+    );
+    println!("{id}: {} {unit}, {} distinct non-trivial, {} violations, {:.1}s", m.evaluations, m.nt.len(), violations.len(), wall);
+    if !violations.is_empty() {
+        for p in &violations {
+            println!("VIOLATION property={id} replay={}", p.display());
+        }
+        return 1;
+    }
+    if !m.inconclusive.is_empty() {
+        for x in &m.inconclusive {
+            eprintln!("inconclusive: {x}");
+        }
+        return 2;
+    }
+    0
+}
